@@ -117,8 +117,20 @@ def zero_duration(t):
 
 
 def measured(x):
-    """the amount taken off the budget is a measured time: it involves Instant::now() or Instant::elapsed()"""
-    return term_has(x, lambda y: is_call(y, 'now') or is_call(y, 'elapsed') or is_call(y, 'duration_since'))
+    """the amount taken off the budget IS a measured time (now - earlier instant, earlier.elapsed(), now.duration_since(earlier)),
+    not something merely computed from one (min(0, elapsed) takes nothing off)"""
+    x = strip_ref(x)
+    inst = lambda y: term_has(y, lambda z: is_call(z, 'now'))
+    if x[0] != 'call':
+        return False
+    nm = x[1].rsplit('::', 1)[-1]
+    if nm == 'sub' and len(x[2]) == 2:                      # Instant - Instant
+        return is_call(strip_ref(x[2][0]), 'now') and inst(x[2][1])
+    if nm in ('duration_since', 'saturating_duration_since') and len(x[2]) == 2:
+        return is_call(strip_ref(x[2][0]), 'now') and inst(x[2][1])
+    if nm == 'elapsed' and len(x[2]) == 1:                  # before.elapsed()
+        return inst(x[2][0])
+    return False
 
 
 def shrinks(newB, B):
